@@ -838,6 +838,7 @@ class FragmentSender(object):
         self.user_callback = callback
 
         self.fragments = []
+        self.payloads = []
         self.acks = []
 
     def build(self, payload):
@@ -858,11 +859,14 @@ class FragmentSender(object):
                 payload = payload[Packet.MAX_FRAGMENT_SIZE:]
 
         self.acks = [None] * len(self.fragments)
+        self.payloads = []
 
         for index, fragment in enumerate(self.fragments):
 
             payload = struct.pack(">HHH", self.frag_id, 1 + index, len(self.fragments))
             payload += fragment
+            # keep the fragment including its header, in case it is resent
+            self.payloads.append(payload)
             meta_callback = lambda success, idx=index: self.callback(idx, success)
 
             yield payload, meta_callback
@@ -872,7 +876,7 @@ class FragmentSender(object):
         if not success and self.retry != RetryMode.NONE:
             # resend the fragment that timed out
             cbk = lambda success, idx=index: self.callback(idx, success)
-            self.conn._send_type(PacketType.APP_FRAGMENT, self.fragments[index], self.retry, cbk)
+            self.conn._send_type(PacketType.APP_FRAGMENT, self.payloads[index], self.retry, cbk)
         else:
             self.acks[index] = success
 
